@@ -159,6 +159,15 @@ func genNumericCondition(pool []int64) *rapid.Generator[bs.NumericCondition] {
 		switch op {
 		case bs.OpIn, bs.OpNotIn:
 			c.Values = rapid.SliceOfN(operand, 0, 4).Draw(t, "values")
+			if len(pool) > 7 && chance(t, "exactset", 40) {
+				// a set made of exact stored values (the entries operandsNear puts at
+				// every third position after its 7 constants are the values' own
+				// floor/ceil): sets that contain a block's Min and Max at once
+				c.Values = nil
+				for i := rapid.IntRange(1, 6).Draw(t, "nexact"); i > 0; i-- {
+					c.Values = append(c.Values, pool[7+3*unif(t, "exactidx", (len(pool)-7+2)/3)])
+				}
+			}
 			if len(c.Values) == 0 {
 				c.Values = nil
 			}
